@@ -176,3 +176,139 @@ func c06SentinelReaches(ins ssa.Instruction, v ssa.Value, seen map[ssa.Instructi
 func c06DecodePkg(pr string) bool {
 	return strings.HasPrefix(pr, "format") || pr == "pkg/decode" || pr == "pkg/scalar" || pr == "pkg/bitio" || pr == "internal/bitiox"
 }
+
+// ---------------------------------------------------------------------------
+// C06.wrapguard: a size guard in the decode API does not compare a product that can wrap
+//
+// Rule template: in pkg/decode / pkg/bitio / internal/bitiox (where sizes supplied by decoders are
+// validated before allocation or reading), a branch condition `A rel B` whose operand is k*X or X<<s
+// (k, s constant) is only a valid bound on X if the product cannot overflow: X must have a proved
+// upper bound <= MaxInt64/k at the branch. Otherwise a crafted 64-bit length wraps to a small
+// number, the guard passes and the allocation / read behind it faults.
+
+func c06WrapGuard(r *fw.Run, p *fw.Program) {
+	ru := r.Rule("C06.wrapguard", "in the decode API layer (pkg/decode, pkg/bitio, internal/bitiox) a branch condition that compares a product k*X / X<<s of a non-constant X proves first that the product cannot overflow (X <= MaxInt64/k): a wrapped size guard lets a crafted 64-bit length through to make / read", 1)
+	for _, fn := range p.FqFunctions() {
+		pr := pkgRel(fn)
+		if pr != "pkg/decode" && pr != "pkg/bitio" && pr != "internal/bitiox" {
+			continue
+		}
+		var env *fw.IntervalEnv
+		ord := 0
+		for _, b := range fn.Blocks {
+			if len(b.Instrs) == 0 {
+				continue
+			}
+			iff, ok := b.Instrs[len(b.Instrs)-1].(*ssa.If)
+			if !ok {
+				continue
+			}
+			cmp, ok := iff.Cond.(*ssa.BinOp)
+			if !ok {
+				continue
+			}
+			switch cmp.Op {
+			case token.LSS, token.LEQ, token.GTR, token.GEQ:
+			default:
+				continue
+			}
+			for _, side := range []ssa.Value{cmp.X, cmp.Y} {
+				c06EachProduct(side, 0, func(prod *ssa.BinOp, x ssa.Value, k int64) {
+					if env == nil {
+						env = newC13Env(fn)
+					}
+					ord++
+					key := fmt.Sprintf("%s|guard#%d", fw.ShortFn(fn), ord)
+					iv := env.At(x, b)
+					limit := int64(1<<63-1) / k
+					okB := !iv.HiInf && iv.Hi <= limit && (!iv.LoInf && iv.Lo >= -limit)
+					if !okB {
+						// a narrower source value widened to 64 bit: bounded by its type
+						if src := c06WidenedFrom(x); src > 0 && src < 63 && k <= int64(1)<<(62-src) {
+							okB = true
+						}
+					}
+					if !okB && k <= 1<<30 {
+						// lengths of existing memory, or a parameter bounded (<= 2^32) at every call site
+						okB, _ = provedOrLifted(p, fn, env, x, b, needBounded, 0)
+					}
+					ru.Check(okB, key, p.Rel(prod.Pos()), "factor bounded: the product cannot wrap", fmt.Sprintf("size guard compares %d * X where X has no proved bound <= MaxInt64/%d: for a crafted 64-bit X the product wraps, the guard passes and the code behind it allocates or reads with the huge X", k, k))
+				})
+			}
+		}
+	}
+}
+
+func sizeofInt(t types.Type) int {
+	b, ok := t.Underlying().(*types.Basic)
+	if !ok {
+		return 0
+	}
+	switch b.Kind() {
+	case types.Int8, types.Uint8:
+		return 8
+	case types.Int16, types.Uint16:
+		return 16
+	case types.Int32, types.Uint32:
+		return 32
+	case types.Int, types.Int64, types.Uint, types.Uint64, types.Uintptr:
+		return 64
+	}
+	return 0
+}
+
+// c06WidenedFrom: x is a conversion chain from an integer of fewer bits; returns those bits (0 if none).
+func c06WidenedFrom(x ssa.Value) int {
+	best := 0
+	for {
+		c, ok := x.(*ssa.Convert)
+		if !ok {
+			return best
+		}
+		if s := sizeofInt(c.X.Type()); s > 0 && s < 64 {
+			if best == 0 || s < best {
+				best = s
+			}
+		}
+		x = c.X
+	}
+}
+
+// c06EachProduct walks the arithmetic of a comparison operand and reports k*X and X<<s with constant k>1.
+func c06EachProduct(v ssa.Value, depth int, f func(prod *ssa.BinOp, x ssa.Value, k int64)) {
+	if depth > 4 {
+		return
+	}
+	switch x := v.(type) {
+	case *ssa.Convert:
+		c06EachProduct(x.X, depth+1, f)
+	case *ssa.BinOp:
+		switch x.Op {
+		case token.MUL:
+			for _, pair := range [][2]ssa.Value{{x.X, x.Y}, {x.Y, x.X}} {
+				if c, ok := pair[1].(*ssa.Const); ok && c.Value != nil {
+					if k, ok := constant.Int64Val(constant.ToInt(c.Value)); ok && (k > 1 || k < -1) {
+						if k < 0 {
+							k = -k
+						}
+						if _, isC := pair[0].(*ssa.Const); !isC {
+							f(x, pair[0], k)
+						}
+						return
+					}
+				}
+			}
+		case token.SHL:
+			if c, ok := x.Y.(*ssa.Const); ok && c.Value != nil {
+				if s, ok := constant.Int64Val(constant.ToInt(c.Value)); ok && s > 0 && s < 62 {
+					if _, isC := x.X.(*ssa.Const); !isC {
+						f(x, x.X, int64(1)<<uint(s))
+					}
+				}
+			}
+		case token.ADD, token.SUB:
+			c06EachProduct(x.X, depth+1, f)
+			c06EachProduct(x.Y, depth+1, f)
+		}
+	}
+}
